@@ -11,6 +11,7 @@ import warnings
 
 import convcases
 import convprop
+import gen
 from common import run_shards
 from terms import term_head, val_to_coq, tree_to_coq, exn_to_coq, Unsupported
 from props.c05 import walk, canon, overlapping_union, class_issues
@@ -24,9 +25,9 @@ SKIP = {'out-layout-not-enabled', 'excluded-field', 'explicit-asymmetric-out_nam
         'explicit-asymmetric-in_names', 'tuple-out-with-noninit-field'}
 
 
-def cause_of(term, issues):
+def cause_of(term, issues, x=None):
     from props.c05 import known_cause
-    return known_cause(term, issues, wrapped=False)
+    return known_cause(term, issues, wrapped=False, x=x)
 
 
 def has_wrapped_tag(term):
@@ -70,7 +71,7 @@ def monitor_factory(items):
         issues = class_issues(c.term)
         if issues & SKIP:
             return out
-        cause = cause_of(c.term, issues)
+        cause = cause_of(c.term, issues, x)
         if obs[0] != 'ok':
             out.append((f'C06:convert-rejects-own-value:{cause or head}', f'convert({x!r}, {T!r}) failed: {str(obs[1])[:200]}', None))
         elif canon(obs[1]) != canon(x) and 'FNan' not in canon(x):
@@ -92,6 +93,12 @@ def native_cases():
         x: int
         y: t.List[float] = pane.field(default_factory=list)
         c: Color = Color.RED
+
+    class Shape(pane.PaneBase):
+        name: str
+
+    class Circle(Shape):
+        radius: float
     base = [
         (fractions.Fraction, fractions.Fraction(1, 3), 'Fraction'), (decimal.Decimal, decimal.Decimal('1.50'), 'Decimal'),
         (datetime.datetime, datetime.datetime(2020, 1, 2, 3, 4, 5), 'datetime'), (datetime.date, datetime.date(2020, 1, 2), 'date'),
@@ -115,6 +122,8 @@ def native_cases():
         (t.Union[t.FrozenSet[int], t.Set[int]], [frozenset({3})], 'frozenset|set'),
         (t.Union[Color, str], [Color.RED, 'other'], 'enum|str'), (t.Union[bool, int], [True, 1, 0], 'bool|int'),
         (t.Optional[t.Union[int, P]], [P(1), 3, None], 'optional int|dataclass'),
+        (t.Union[Shape, Circle], [Circle('c', 2.0), Shape('s')], 'base|subclass'), (t.Union[Circle, Shape], [Circle('c', 2.0), Shape('s')], 'subclass|base'),
+        (t.Optional[t.Union[Shape, Circle]], [Circle('c', 2.0), None], 'optional base|subclass'),
     ]
     for uty, vals, label in union_fields:
         import types as _types
@@ -148,7 +157,8 @@ def run(ctx, out):
                 'instance, Range, ValueOrList) alone and nested in list/dict/tuple; (c) idempotence; (d) constructors given typed '
                 'arguments. Types with externally/adjacently tagged unions are outside the property. Non-trivial = non-leaf type.')
     items = []
-    cases = convprop.run(ctx, out, PROP, monitor_factory(items), cfg={'overlap': True, 'weights': {'class': 3.0, 'enum': 1.2, 'seq': 2.0, 'std': 1.5, 'union': 2.5}})
+    cases = convprop.run(ctx, out, PROP, monitor_factory(items), cfg={'overlap': True, 'weights': {'class': 3.0, 'enum': 1.2, 'seq': 2.0, 'std': 1.5, 'union': 2.5}},
+                         extra_cases=lambda rng: convprop.cases_from_pairs(gen.subclass_union_cases(rng), rng, 'subclass-union'))
     # (b) native values
     n = 0
     for T, x, label in native_cases():
@@ -204,7 +214,7 @@ def run(ctx, out):
                f'{len(bad)} mismatches over {len(rendered)}, {len(errs)} shard errors')
     for e in errs[:2]:
         out.violation('C06:corr_convobj:shard-error', 'shard failed: ' + e[:500], {'correspondence': 'corr_convobj', 'error': e[:1500]}, no_input=True)
-    if bad and not any(not v['no_input'] for v in out.violations):
+    if bad and not out.has_unlisted_input():
         c, x, obs, coq = rendered[bad[0]]
         out.violation('C06:corr_convobj', f'model and pane disagree on convert({x!r}, {c.built.py!r}) ({len(bad)} cases)',
                       {'correspondence': 'corr_convobj', 'type': repr(c.built.py), 'value': repr(x), 'observed': convcases.obs_repr(obs) if obs[0] != 'error' else str(obs[1])[:300]}, no_input=True)
